@@ -183,15 +183,16 @@ class SetShape:
 class MapShape:
     """A dict held in an object field (iteration order not modelled): domain array + value arrays."""
 
-    def __init__(self, key, val):
-        self.key, self.val = key, val
+    def __init__(self, key, val, ordered=False):
+        self.key, self.val, self.ordered = key, val, ordered  # ordered: the insertion order of the keys is kept too
 
 
 def shape_sorts(shape):
     """Flat list of z3 sorts for a shape."""
     if isinstance(shape, MapShape):
         k = key_sort(shape.key)
-        return [z3.ArraySort(k, z3.BoolSort())] + [z3.ArraySort(k, s) for s in shape_sorts(shape.val)]
+        keys = [z3.ArraySort(z3.IntSort(), k), z3.IntSort()] if shape.ordered else []
+        return [z3.ArraySort(k, z3.BoolSort())] + [z3.ArraySort(k, s) for s in shape_sorts(shape.val)] + keys
     if isinstance(shape, z3.SortRef):
         return [shape]
     if isinstance(shape, SetShape):
@@ -221,7 +222,12 @@ def flatten(shape, value):
     if isinstance(shape, MapShape):
         if not isinstance(value, MapV):
             raise Unsupported(f"dict expected for a dict-valued field, got {type(value).__name__}")
-        return [value.dom] + (list(value.val) if isinstance(value.val, (list, tuple)) else [value.val])
+        out = [value.dom] + (list(value.val) if isinstance(value.val, (list, tuple)) else [value.val])
+        if shape.ordered:
+            if value.keys is None:
+                raise Unsupported("an unordered dict where an insertion-ordered one is expected")
+            out += arrs_of(value.keys) + [value.keys.n]
+        return out
     if isinstance(shape, SeqShape):
         if not isinstance(value, SeqV):
             raise Unsupported(f"sequence expected for a list-valued field, got {type(value).__name__}")
@@ -258,7 +264,11 @@ def unflatten(shape, terms):
         dom = terms.pop(0)
         k = len(shape_sorts(shape.val))
         vals = [terms.pop(0) for _ in range(k)]
-        return MapV(shape.key, shape.val, dom, vals if k > 1 else vals[0], None)
+        keys = None
+        if shape.ordered:
+            ka, kn = terms.pop(0), terms.pop(0)
+            keys = SeqV(shape.key, ka, kn)
+        return MapV(shape.key, shape.val, dom, vals if k > 1 else vals[0], keys)
     if isinstance(shape, SeqShape):
         k = len(shape_sorts(shape.elem))
         arrs = [terms.pop(0) for _ in range(k)]
